@@ -265,12 +265,14 @@ pub fn profile(name: &str) -> Cfg
             c.hierarchy_pct = 40;
             c.steps = (3, 10);
             if name == "C08F" { c.frame_systems = (2, 5); c.pct_update_step = 45; c.pct_direct_step = 30; c.steps = (3, 9); }
-            else { c.signals = true; c.d_driver[D::Sig as usize] = 8; }
+            else { c.signals = true; c.d_driver[D::Sig as usize] = 8; c.d_tree[D::Sig as usize] = 5; }
         }
         "C10" =>
         {
             c.name = "C10";
             c.signals = true;
+            c.d_tree[D::Sig as usize] = 14;
+            bump(&mut c, &[(K::Direct, 10), (K::Now, 8)]);
             c.pct_app_setup = 8;
             c.hierarchy_pct = 70;
             c.d_driver = dset(&[(D::Sig, 40), (D::Gc, 14), (D::Despawn, 5), (D::DespawnRec, 3), (D::Reparent, 8), (D::Spawn, 4), (D::Run, 3), (D::Broadcast, 3), (D::Poll, 3)]);
@@ -285,7 +287,7 @@ pub fn profile(name: &str) -> Cfg
             bump(&mut c, &[(K::Kill, 9), (K::Despawn, 7), (K::Revoke, 7), (K::ReturnErr, 4), (K::Direct, 8), (K::Now, 8)]);
             c.steps = (2, 8);
             c.pct_self_target = 45;
-            if name == "C11" { c.pct_app_setup = 5; c.signals = true; c.d_driver[D::Sig as usize] = 10; c.d_driver[D::Gc as usize] = 8; c.hierarchy_pct = 25; c.modes = [25, 45, 30]; }
+            if name == "C11" { c.d_tree[D::Sig as usize] = 6; c.pct_app_setup = 5; c.signals = true; c.d_driver[D::Sig as usize] = 10; c.d_driver[D::Gc as usize] = 8; c.hierarchy_pct = 25; c.modes = [25, 45, 30]; }
         }
         "C14" =>
         {
@@ -481,6 +483,12 @@ impl<'a> G<'a>
                 let child = self.r.range(1, self.nslots as u64 - 1) as Slot;
                 let parent = self.r.below(child as u64) as Slot;
                 WOp::Reparent(child, parent)
+            }
+            x if x == D::Sig as usize =>
+            {
+                // anywhere: inside trees, batches and exclusive bodies (collections are observed, so no placement rule is needed)
+                let k = self.r.below(4) as u8;
+                match self.r.below(10) { 0 | 1 => WOp::SigPrepare(k, s), 2 | 3 => WOp::SigClone(k), 4 => WOp::SigMoveInto(k, s), _ => WOp::SigDrop(k) }
             }
             x if x == D::Acc as usize =>
             {
